@@ -18,4 +18,21 @@ MUTANTS = [
     {"id": "c06-explicit-from-parent", "expect": "fire", "edits": [(G, "                cur_commit, search_predicate(cur_commit),", "                cur_commit, search_predicate(cur_commit) or prev_accumdat.selected_explicitely,")]},
     # neutral
     {"id": "c06-n-cmp-style", "expect": "silent", "edits": [(G, "            if item_0 > item_1:\n                return 1\n            if item_0 < item_1:\n                return -1\n            return 0", "            if item_0 == item_1:\n                return 0\n            return 1 if item_0 > item_1 else -1")]},
+    {"id": "c06-cached-list-aliased", "expect": "fire", "edits": [(G, """                for rc in repo_cache.visited_commits[comm_hex]:
+                    if rc not in prev_accumdat.rc_parents:
+                        prev_accumdat.rc_parents.append(rc)""", """                if not prev_accumdat.rc_parents:
+                    prev_accumdat.rc_parents = repo_cache.visited_commits[comm_hex]
+                else:
+                    for rc in repo_cache.visited_commits[comm_hex]:
+                        if rc not in prev_accumdat.rc_parents:
+                            prev_accumdat.rc_parents.append(rc)""")]},
+    {"id": "c06-cache-written-while-live", "expect": "fire", "edits": [(G, "            dfs_accumdata.append(new_accumdat)\n", "            dfs_accumdata.append(new_accumdat)\n            repo_cache.visited_commits.pop(comm_hex, None)\n")]},
+    {"id": "c06-n-cached-list-copied", "expect": "silent", "edits": [(G, """                for rc in repo_cache.visited_commits[comm_hex]:
+                    if rc not in prev_accumdat.rc_parents:
+                        prev_accumdat.rc_parents.append(rc)""", """                if not prev_accumdat.rc_parents:
+                    prev_accumdat.rc_parents = list(repo_cache.visited_commits[comm_hex])
+                else:
+                    for rc in repo_cache.visited_commits[comm_hex]:
+                        if rc not in prev_accumdat.rc_parents:
+                            prev_accumdat.rc_parents.append(rc)""")]},
 ]
